@@ -1390,7 +1390,28 @@ impl TheRing<'_> {
 
         // TODO: the above fails to handle the fact that PlainSessionKey::Unknown will not compare correctly
 
-        let is_consistent = is_sks_consistent && is_skesk_consistent && is_pkesk_consistent;
+        // the session keys found through the different mechanisms have to agree with each other as well
+        let mut is_cross_consistent = true;
+        if let (Some((_, pkesk_key)), Some((_, skesk_key))) =
+            (&pkesk_session_key, &skesk_session_key)
+        {
+            if pkesk_key != skesk_key {
+                is_cross_consistent = false;
+            }
+        }
+        if let (Some((_, pkesk_key)), Some(sks_key)) = (&pkesk_session_key, &sks_session_key) {
+            if pkesk_key != sks_key {
+                is_cross_consistent = false;
+            }
+        }
+        if let (Some((_, skesk_key)), Some(sks_key)) = (&skesk_session_key, &sks_session_key) {
+            if skesk_key != sks_key {
+                is_cross_consistent = false;
+            }
+        }
+
+        let is_consistent =
+            is_sks_consistent && is_skesk_consistent && is_pkesk_consistent && is_cross_consistent;
 
         if !is_consistent {
             bail!("inconsistent session keys detected");
